@@ -138,8 +138,15 @@ def run(base, idx, case, echsx, shim, chain):
             q = subprocess.run(argv, input=req, stdout=fo, stderr=fe, cwd=d, env=env, timeout=90)
         except subprocess.TimeoutExpired:
             return {'err': 'echsx did not finish within 90 s', 'req': req, 'tmpl': tmpl}
-    j = parse_journal(rd(os.path.join(d, 'journal')))
-    return {'req': req, 'tmpl': tmpl, 'T0': T0, 'launch': launch, 'rc': q.returncode, 'journal': j,
+    raw = rd(os.path.join(d, 'journal')) or b''
+    j = parse_journal(raw)
+    # every entry is BEGIN:VTODO, then its DTSTAMP line: which entry of the stream is the first that is not
+    malformed = None
+    for n, blk in enumerate(raw.decode('latin-1').split('BEGIN:VTODO\n')[1:]):
+        if not blk.startswith('DTSTAMP:'):
+            malformed = (n, blk.split('\n', 1)[0])
+            break
+    return {'req': req, 'tmpl': tmpl, 'T0': T0, 'launch': launch, 'rc': q.returncode, 'journal': j, 'malformed': malformed,
             'shim': (rd(os.path.join(d, 'shim.log')) or b'').decode('latin-1')}
 
 
@@ -172,6 +179,11 @@ def main():
 
 def judge(D, case, r):
     reqs, blocked, old = norm(case)
+    if r.get('malformed'):
+        n, ln = r['malformed']
+        D.desc('request stream: ' + r['tmpl'].replace('\n', '|')[:600])
+        D.viol('rt/journal-form/%s-entry' % ('first' if n == 0 else 'later'),
+               'journal entry %d of the session does not begin with its DTSTAMP line but with %r' % (n + 1, ln[:40]))
     if not old:
         return judge_stream(D, reqs, blocked, r)
     lim = [l for l in (r.get('req') or b'').decode('latin-1').split('\n') if l.startswith(('DURATION', 'DUE'))]
